@@ -138,6 +138,8 @@ type c01Config struct {
 	DiffEvery  int    `json:"projection_check_every"`
 	CrashInside bool  `json:"crash_inside_steps"`
 	Strategy    string `json:"byz_strategy"` // "" silent (menu only through deviations) | "own" | "nil" | "echo"
+	Lag         *int   `json:"lagging_node,omitempty"` // default scheduler serves this node last
+	PCFirst     bool   `json:"precommits_first,omitempty"`
 	Base        string `json:"base_schedule"` // "" | "B3": the search starts from the state the base schedule reaches
 	BudgetS    int    `json:"budget_s"`
 }
@@ -235,7 +237,11 @@ func runC01Config(cfg c01Config) *c01Result {
 		if cfg.Base == "B3" {
 			prefix = scenarioLateCommit(x).actions()
 		}
-		dr := x.searchDev(devCfg{maxDev: cfg.Dev, maxCrashes: cfg.Crashes, menu: bag, byz: cfg.Byz, stop: stop,
+		lag := -1
+		if cfg.Lag != nil {
+			lag = *cfg.Lag
+		}
+		dr := x.searchDev(devCfg{lagNode: lag, pcFirst: cfg.PCFirst, maxDev: cfg.Dev, maxCrashes: cfg.Crashes, menu: bag, byz: cfg.Byz, stop: stop,
 			maxStates: cfg.MaxStates, reorder: cfg.Reorder, crashInside: cfg.CrashInside, preAllow: pre, preAllowNode: preNode, prefix: prefix})
 		res = &gResult{states: dr.states, transitions: dr.transitions, complete: dr.complete, depth: dr.maxDepth,
 			violations: dr.violations, finals: dr.finals, capHit: dr.capHit}
@@ -360,6 +366,11 @@ func c01Configs(thorough bool) []c01Config {
 		addS("S-byz3-own-R2-dev1", 3, 2, 0, 1, "own", "")
 		addS("S-byz3-echo-R2-dev1", 3, 2, 0, 1, "echo", "")
 		addS("S-byz1-equivocate-R1-dev1", 1, 1, 0, 1, "equivocate", "")
+		addS("S-byz1-equivocate-R1-lagV0-pcfirst-dev1", 1, 1, 0, 1, "equivocate", "")
+		{
+			z := 0
+			cs[len(cs)-1].Lag, cs[len(cs)-1].PCFirst = &z, true
+		}
 		addS("B3-byz3-own-R3-dev1", 3, 3, 0, 1, "own", "B3")
 		addS("B3-byz3-silent-R3-crash1-dev1", 3, 3, 1, 1, "", "B3")
 		// exact breadth-first search over ALL interleavings (no default scheduler) to a stated depth
@@ -381,6 +392,14 @@ func c01Configs(thorough bool) []c01Config {
 	}
 	addS("B3-byz3-silent-R3-crash1-dev2", 3, 3, 1, 2, "", "B3")
 	addS("S-byz1-equivocate-R1-dev2", 1, 1, 0, 2, "equivocate", "")
+	for _, lagv := range []int{0, 2, 3} {
+		z := lagv
+		addS(fmt.Sprintf("S-byz1-equivocate-R1-lagV%d-pcfirst-dev2", lagv), 1, 1, 0, 2, "equivocate", "")
+		cs[len(cs)-1].Lag, cs[len(cs)-1].PCFirst = &z, true
+		addS(fmt.Sprintf("A-byz3-R1-lagV%d-pcfirst-dev2", lagv%3), 3, 1, 0, 2, "", "")
+		z2 := lagv % 3
+		cs[len(cs)-1].Lag, cs[len(cs)-1].PCFirst = &z2, true
+	}
 	addS("S-byz1-equivocate-R2-crash1-dev2", 1, 2, 1, 2, "equivocate", "")
 	addS("S-byz3-equivocate-R2-dev2", 3, 2, 0, 2, "equivocate", "")
 	add("A-byz3-R1-dev1-reorder", 3, 1, 0, "dev", 1, true, 0)
